@@ -13,7 +13,7 @@ import tempfile
 PROPS = [f"C{n:02d}" for n in (1, 2, 3, 4, 5, 6, 7, 8, 9, 10, 11, 12, 13, 14, 15, 16, 17, 18, 19, 20)]
 
 
-def sh(cmd, cwd=None, env=None, timeout=900):
+def sh(cmd, cwd=None, env=None, timeout=1500):
     e = dict(os.environ)
     e.update(env or {})
     try:
